@@ -2,8 +2,8 @@ use crate::{
     channel::Sender,
     computed::suspense::SuspenseContext,
     graph::{
-        AnySource, AnySubscriber, ReactiveNode, Source, SourceSet, Subscriber,
-        SubscriberSet,
+        untrack_with_diagnostics, AnySource, AnySubscriber, ReactiveNode,
+        Source, SourceSet, Subscriber, SubscriberSet,
     },
     owner::Owner,
 };
@@ -69,12 +69,27 @@ impl ReactiveNode for RwLock<ArcAsyncDerivedInner> {
         }
         drop(guard);
 
-        for source in sources.into_iter().flatten() {
-            if source.update_if_necessary() {
-                return true;
-            }
+        // The sources are only *checked* here, not read, so this node must not be
+        // the observer: a memo that changes while it is pulled indirectly (through
+        // another source) would otherwise skip this node, as if it were about to read
+        // the new value, and the change would be lost (the async work would not rerun).
+        let any_changed = untrack_with_diagnostics(|| {
+            sources
+                .into_iter()
+                .flatten()
+                .any(|source| source.update_if_necessary())
+        });
+
+        // A source that changed during the check has marked this node dirty. That
+        // change is accounted for by the result of this check, so it must not cause
+        // a second run.
+        let mut guard = self.write().or_poisoned();
+        let dirty = guard.state == AsyncDerivedState::Dirty;
+        if dirty {
+            guard.state = AsyncDerivedState::Clean;
         }
-        false
+
+        any_changed || dirty
     }
 }
 
